@@ -56,7 +56,17 @@ def main(argv=None) -> int:
         if args.replay:
             return mod.replay(ctx, report, args.replay)
         if ctx.lean is not None:
-            mod.run(ctx, report, status)
+            try:
+                mod.run(ctx, report, status)
+            except Exception as exc:  # pylint: disable=broad-except
+                # The comparison itself could not be carried out on what the implementation returned (an output the
+                # wire format or the model cannot even express, a changed signature, ...).  That is a correspondence
+                # that no longer checks, not an infrastructure failure: spec failures already recorded are reported
+                # with their replay, otherwise the directed search runs (DESIGN.md section 6).
+                tb = traceback.format_exc()
+                print(tb)
+                status.problem("correspondence", f"the check stopped on the implementation's output: {type(exc).__name__}: {str(exc)[:300]}",
+                               tb[-3000:])
         search = (lambda: mod.search(ctx, report, status)) if hasattr(mod, "search") else None
         code = core.finish(ctx, status, report, search=search, extra=getattr(mod, "extra_evidence", lambda: None)())
         return code
